@@ -96,6 +96,7 @@ def build_tree(rng: random.Random, doc: Doc, items: List[Tuple[Any, Any]], leafk
     shuffle = shape.get("shuffle_kids", False)
     kids_direct = shape.get("kids_direct", "none")        # "none" | "all" | "mixed"
     lim_elems = shape.get("limit_elems_indirect", "none")  # "none" | "both" | "some"
+    key_ind = shape.get("leaf_keys_indirect", 0.0)         # share of the string keys of a leaf written as references
     leaf_of: Dict[Any, int] = {}
     leaf_counter = [0]
 
@@ -147,7 +148,11 @@ def build_tree(rng: random.Random, doc: Doc, items: List[Tuple[Any, Any]], leafk
             lid = leaf_counter[0]
             leaf_counter[0] += 1
             for k, v in its:
-                arr.append(pdf_string(rng, k) if isinstance(k, bytes) else k)
+                ks = pdf_string(rng, k) if isinstance(k, bytes) else k
+                if key_ind and isinstance(k, bytes) and rng.random() < key_ind:
+                    ks = doc.add(ks)                      # the key string is an indirect object
+                    feats["leaf_keys_indirect"] = feats.get("leaf_keys_indirect", 0) + 1
+                arr.append(ks)
                 arr.append(v)
                 leaf_of[k] = lid
             entries.append((leafkey, maybe_indirect(arr, "leaf")))
@@ -188,6 +193,8 @@ def random_shape(rng: random.Random, deep: bool = False) -> Dict[str, Any]:
     sh["kids_direct"] = "none" if r < 0.64 else "all" if r < 0.82 else "mixed"
     r = rng.random()
     sh["limit_elems_indirect"] = "none" if r < 0.7 else "both" if r < 0.82 else "some"
+    r = rng.random()
+    sh["leaf_keys_indirect"] = 0.0 if r < 0.75 else 1.0 if r < 0.83 else 0.4
     return sh
 
 
